@@ -202,33 +202,33 @@ def run(ctx):
                 with open(os.path.join(d, "xsf1r%d.ms5_xsf_dd.dat" % r), "wb") as f:
                     f.write(b)
                 store[r] = (cfs, dat)
-            corr = rng.choice(["gS", "gA", "lV", "lTt", "g1"])
             places = ["gS", "gP", "gA", "gV", "gVt", "lA", "lV", "lVt", "lT", "lTt"]
-            try:
-                with shuffled_listing(rng):
-                    res = quiet(oq.read_ms5_xsf, d, "xsf1", "dd", corr)
-                for r in repnums:
-                    name = "xsf1|r%d" % r
-                    cfs, dat = store[r]
-                    if corr == "g1":
-                        entries = [res]
-                    else:
-                        entries = [c_[0] for c_ in res.content]
-                    for t, co in enumerate(entries):
-                        if list(co.real.idl[name]) != cfs:
-                            ctx.fail("ms5_xsf:configurations", "ms5_xsf: replica %s carries configurations %s, the file holds %s" % (name, list(co.real.idl[name]), cfs), {})
-                            break
-                        for ci, (vr, vi) in enumerate(zip(samples_of(co.real, name), samples_of(co.imag, name))):
-                            if corr == "g1":
-                                er, ei = dat[ci][1][0]
-                            else:
-                                row = dat[ci][0][places.index(corr)]
-                                er, ei = row[2 * t], row[2 * t + 1]
-                            pairs.append((vr, er, "ms5_xsf %s real part, replica %s" % (corr, name)))
-                            pairs.append((vi, ei, "ms5_xsf %s imaginary part, replica %s" % (corr, name)))
-                ctx.case(("ms5_xsf", i, corr), nontrivial=True)
-            except Exception as e:
-                ctx.fail("ms5_xsf:raises", "read_ms5_xsf raised %r on a well-formed file set" % e, {"corr": corr})
+            for corr in places + ["g1", "l1"]:      # every correlator of the record, boundary-to-boundary ones included
+                try:
+                    with shuffled_listing(rng):
+                        res = quiet(oq.read_ms5_xsf, d, "xsf1", "dd", corr)
+                    for r in repnums:
+                        name = "xsf1|r%d" % r
+                        cfs, dat = store[r]
+                        if corr in ("g1", "l1"):
+                            entries = [res]
+                        else:
+                            entries = [c_[0] for c_ in res.content]
+                        for t, co in enumerate(entries):
+                            if list(co.real.idl[name]) != cfs:
+                                ctx.fail("ms5_xsf:configurations", "ms5_xsf: replica %s carries configurations %s, the file holds %s" % (name, list(co.real.idl[name]), cfs), {})
+                                break
+                            for ci, (vr, vi) in enumerate(zip(samples_of(co.real, name), samples_of(co.imag, name))):
+                                if corr in ("g1", "l1"):
+                                    er, ei = dat[ci][1][("g1", "l1").index(corr)]
+                                else:
+                                    row = dat[ci][0][places.index(corr)]
+                                    er, ei = row[2 * t], row[2 * t + 1]
+                                pairs.append((vr, er, "ms5_xsf %s real part, replica %s" % (corr, name)))
+                                pairs.append((vi, ei, "ms5_xsf %s imaginary part, replica %s" % (corr, name)))
+                    ctx.case(("ms5_xsf", i, corr), nontrivial=True)
+                except Exception as e:
+                    ctx.fail("ms5_xsf:raises", "read_ms5_xsf raised %r on a well-formed file set" % e, {"corr": corr})
 
             # ------------------------------------------------------------ sfqcd gfms (timeslice sum at the selected c)
             d = os.path.join(tmpd, "g%d" % i)
